@@ -96,6 +96,11 @@ def generate(prop, rng, tier):
         if cfg['halfcomplex']:
             cfg['shift'][-1] = True
         cfg['tmp_at_init'] = rng.random() < 0.2
+        if rng.random() < 0.5:
+            # not a cube, not centred: per-axis extents
+            cfg['lo'] = [rng.choice([-1.0, -2.5, 0.0, -0.5]) for _ in shape]
+            cfg['hi'] = [l + rng.choice([2.0, 3.0, 0.75, 5.0])
+                         for l in cfg['lo']]
     ops = []
     for _ in range(rng.randint(5, 14)):
         t = rng.choices(['call', 'create_tmp', 'clear_tmp', 'init_plan',
@@ -163,7 +168,8 @@ def build(cfg, impl=None):
             S = o.uniform_discr([0.0] * nd, [float(n) for n in cfg['shape']],
                                 cfg['shape'], dtype=cfg['dtype'])
             return o.trafos.DiscreteFourierTransform(S, **kw)
-        S = o.uniform_discr([-1.0] * nd, [1.0] * nd, cfg['shape'],
+        S = o.uniform_discr(cfg.get('lo', [-1.0] * nd),
+                            cfg.get('hi', [1.0] * nd), cfg['shape'],
                             dtype=cfg['dtype'])
         kw['shift'] = cfg['shift']
         return o.trafos.FourierTransform(S, **kw)
@@ -246,6 +252,22 @@ def execute(prop, plan, ctx):
                 site(cfg), type(e).__name__),
                 'building inverse/adjoint of {} raised {}: {}'.format(
                     site(cfg), type(e).__name__, str(e)[:160]))
+    if cfg['cls'] == 'FT':
+        # the frequencies the result is attached to: stride 2 pi / (n h) in
+        # every transformed axis (also the halved one), the domain's own
+        # stride elsewhere -- independent of odl's reciprocal_grid
+        nd_ = len(cfg['shape'])
+        tr = set(a % nd_ for a in cfg['axes'])
+        for a in range(nd_):
+            h = float(T.domain.cell_sides[a])
+            want = 2 * np.pi / (cfg['shape'][a] * h) if a in tr else h
+            got = float(T.range.cell_sides[a])
+            if abs(got - want) > 1e-9 * abs(want):
+                raise Violation(
+                    'C18', 'C18/reciprocal-grid-stride/' + site(cfg),
+                    'range grid of the continuous transform has stride {:.6g} '
+                    'in axis {} where 2 pi / (n h) = {:.6g} [cfg {}]'.format(
+                        got, a, want, cfg))
     g = np_rng('fft', plan['xseed'])
     with seams.allocator('zero'):
         xs = [SP.rand_elem(T.domain, g) for _ in range(3)]
